@@ -35,6 +35,7 @@ class Ctx(object):
         self.model = model
         self.t0 = time.time()
         self.findings = []
+        self.deferred_errors = []   # analyses that could not be completed (reported only when no violation was found)
         self._seen = set()
         self.rules = {}        # rule id -> {'instances': n, 'violations': n, 'desc': str, 'floor': n}
         self.samples = []
@@ -92,9 +93,13 @@ class Ctx(object):
                 matched.append((f, e))
             else:
                 unknown.append(f)
+        if self.deferred_errors and not unknown:
+            raise AnalysisError(self.deferred_errors[0])
         if vacuous and not unknown:
             # a rule that examined too little cannot vouch for the property (violations found elsewhere are still reported)
             raise AnalysisError(vacuous)
+        for err in self.deferred_errors:
+            print('ANALYSIS-INCOMPLETE property=%s %s' % (self.prop, err.splitlines()[0][:300]))
         for f, e in matched:
             print('KNOWN-FINDING: property=%s %s %s %s :: %s [%s]' % (
                 f.prop, f.rule, f.func, f.construct, f.message, e.get('id', '?')))
